@@ -72,7 +72,9 @@ def cases(draw):
         elif slow:
             steps.append(['sleep'])
         else:
-            steps.append(['print', 'é\n' if text_mode else 'e\n'])
+            # 'cut': the bytes of this text reach the reader in two pieces, the first ending inside a character
+            steps.append(['print', 'r\xe9sum\xe9 \u2581\u2582\u2583 \xe9\n', 'cut'] if text_mode and draw(st.booleans())
+                         else ['print', 'é\n' if text_mode else 'e\n'])
     codec_errors = draw(st.sampled_from([None, None, 'replace', 'ignore'])) if text_mode else None
     if codec_errors:
         # output that is not valid UTF-8, under an error handler passed through run(**kwargs)
@@ -136,7 +138,14 @@ def check_case(case, col=None):
     actions = []
     printed = ''                  # what the child prints (child side, before tty \n -> \r\n)
     for s in case['steps']:
-        if s[0] == 'print':
+        if s[0] == 'print' and len(s) > 2:
+            raw = s[1].encode('utf-8')
+            conts = [j for j in range(len(raw)) if raw[j] & 0xC0 == 0x80]
+            k2 = conts[(len(s[1]) * 7) % len(conts)]
+            actions.append(['w', raw[:k2].hex()])
+            actions.append(['s', 0.03])
+            actions.append(['w', raw[k2:].hex()])
+        elif s[0] == 'print':
             actions.append(['w', s[1].encode('utf-8').hex()])
         elif s[0] == 'print-raw':
             actions.append(['w', s[1].encode('latin-1').hex()])
@@ -372,6 +381,8 @@ def check_case(case, col=None):
             if max_gap > 2000:
                 col.label('output>maxread-between-events')
             col.label('stop=' + (stopped or 'EOF'))
+            if any(s_[0] == 'print' and len(s_) > 2 for s_ in case['steps']):
+                col.label('text-cut-inside-a-character')
             col.case(case, nt)
     finally:
         ps.cleanup()
